@@ -405,11 +405,29 @@ Section Leaf.
      string, become null; nothing is touched *)
   Lemma move_file_missing_lemma : forall outrel fname fp s,
     fp <> [] -> clean_path fp -> lk s fp = None ->
+    lk s ((ps ++ outrel) ++ [fname]) = None ->
     move_file ps outrel fname (JStr (render fp)) s = (JNull, s).
   Proof.
-    intros outrel fname fp s Hne Hc Hlk. unfold move_file.
+    intros outrel fname fp s Hne Hc Hlk Hout. unfold move_file.
     destruct (render_nonempty fp Hne) as (b & r & Er).
-    rewrite Er. rewrite <- Er. rewrite (parse_render fp Hne Hc). rewrite Hlk. reflexivity.
+    rewrite Er. rewrite <- Er. rewrite (parse_render fp Hne Hc). rewrite Hlk, Hout. reflexivity.
+  Qed.
+
+  (* a file that is missing because an interrupted run already moved it to
+     its place under outs/ (and was killed before linking it back): the link
+     is made, the value names the place under outs/, nothing else changes *)
+  Lemma move_file_resumes_lemma : forall outrel fname fp s n,
+    fp <> [] -> clean_path fp -> lk s fp = None ->
+    lk s ((ps ++ outrel) ++ [fname]) = Some n ->
+    lk s (dirname fp) = Some NDir ->
+    let outp := (ps ++ outrel) ++ [fname] in
+    move_file ps outrel fname (JStr (render fp)) s =
+    (JStr (render outp), with_fs s (fs_set fp (NLink (rel_path (dirname fp) outp)) (fs s))).
+  Proof.
+    intros outrel fname fp s n Hne Hc Hlk Hout Hdir outp. unfold move_file.
+    destruct (render_nonempty fp Hne) as (b & r & Er).
+    rewrite Er. rewrite <- Er. rewrite (parse_render fp Hne Hc). rewrite Hlk.
+    fold outp. unfold outp. rewrite Hout, Hdir. reflexivity.
   Qed.
 
   Lemma move_file_empty_lemma : forall outrel fname s,
@@ -535,7 +553,10 @@ Section Shape.
       destruct (is_pfx fp _); [right; left; reflexivity|].
       destruct (lk s1 _); [right; left; reflexivity|].
       right; right. eexists. reflexivity. }
-    destruct (lk s fp) as [n|]; [|left; reflexivity].
+    destruct (lk s fp) as [n|];
+      [|destruct (lk s ((ps ++ outrel) ++ [fname])); [|left; reflexivity];
+        destruct (lk s (dirname fp)) as [[c| |tgt]|]; cbn [fst];
+        try (left; reflexivity); right; right; eexists; reflexivity].
     destruct n as [c| |tgt]; [exact Hbody|exact Hbody|].
     destruct (mkdirall ps outrel s) as [s1 ok]. destruct ok; [|right; left; reflexivity].
     unfold copy_symlink.
